@@ -31,3 +31,5 @@ def run(ctx):
     witness.cf_rule(ctx, 'G5w', ('cf/C06/', 'cf/C19/unsafe-new'),
                     "a Move's fields cannot be changed from outside, and the unchecked constructor needs `unsafe` (compile-fail witnesses)")
     emitrules.emitter_rule(ctx, facts, 'G7')
+    from . import shared
+    shared.attack_component(ctx, facts, "G8", "castling is semilegal only if the king's square and the square it crosses are not attacked: generator and validator both ask do_is_cell_attacked")
